@@ -281,8 +281,11 @@ func runApp(c appCase) (res AppRun) {
 		}
 		res.AppOut = appOut.String()
 	}()
-	// every invocation of the tool starts with freshly initialised package-level variables
-	verifshim.ResetPackageState()
+	// every invocation of the tool starts with freshly initialised package-level variables (unless the exploration is
+	// about several runs in one process: appKeepState)
+	if !appKeepState {
+		verifshim.ResetPackageState()
+	}
 	if verifshim.PermHook == nil && !c.SortedMaps {
 		verifshim.PermHook = reversePerm
 		defer func() { verifshim.PermHook = nil }()
@@ -300,6 +303,29 @@ func runApp(c appCase) (res AppRun) {
 		res.Err = err.Error()
 	}
 	return res
+}
+
+// appKeepState: the next application runs happen in the process of the runs before them (a program that calls the
+// commands several times, as the e2e tests do): package-level variables keep what the earlier runs left there.
+var appKeepState bool
+
+// concurrentAppRuns counts the application runs of this worker that started goroutines.
+var concurrentAppRuns int
+
+// cachedRun: the result of an application run is remembered under key - unless the run started goroutines: then its
+// outcome belongs to one schedule, the run makes scheduling choices every time it is made, and remembering it would
+// make the number of choices of an execution depend on what ran before (a replay divergence, and schedules unexplored).
+func cachedRun(cache map[string]AppRun, limit int, key string, rc appCase) AppRun {
+	if r, ok := cache[key]; ok {
+		logRun(rc, r)
+		return r
+	}
+	before := concurrentAppRuns
+	r := runApp(rc)
+	if concurrentAppRuns == before && len(cache) < limit {
+		cache[key] = r
+	}
+	return r
 }
 
 // appPanic carries a panic of the application (value and stack) out of the scheduler thread it happened in.
@@ -350,6 +376,7 @@ func runScheduled(f func() error) error {
 	if len(s.Trace) > 0 {
 		x.NoConfirm = true
 		x.Note("concurrent_application_runs", 1)
+		concurrentAppRuns++
 	}
 	if pan != "" {
 		panic(appPanic{pan})
